@@ -1580,6 +1580,8 @@ func runC07(c *vf.Ctx) {
 	})
 	// model tie: the jsonutils Decoder model against the implementation (class, panic verdict, text)
 	runC07Tie(c)
+	// link configurations: processes that link only some algorithm packages (c07min.go)
+	runC07Min(c)
 	c07TotMu.Lock()
 	c.Set("calls_under_recover", c07TotCalls)
 	c.Set("errors_rendered", c07TotRendered)
